@@ -156,6 +156,24 @@ var aliasKinds = []string{"alias-same", "alias-dot", "alias-dotdot", "alias-syml
 
 func isAlias(d string) bool { return strings.HasPrefix(d, "alias-") }
 
+// source paths that are another name of the real file, and destinations naming that real file
+var srcAliasKinds = []string{"symlink", "symlink-chain", "dot", "hardlink"}
+var realAliasKinds = []string{"alias-real", "alias-real-symlink", "alias-real-hardlink"}
+
+func isRealAlias(d string) bool { return strings.HasPrefix(d, "alias-real") }
+
+// moveOntoOwnTarget: MoveFile(symlink, the file the symlink points to) on one file system.
+// rename(2) replaces the file by the link, which then points to itself: the content is gone and
+// MoveFile returned nil (genuine defect, repaired in /repo; see DESIGN.md §2). "MoveFile gives the
+// same guarantee for the destination", so these calls are judged like all others.
+func moveOntoOwnTarget(cs Case) bool {
+	return cs.Op == "move" && cs.SrcFS == cs.DstFS && cs.Dst == "alias-real" && (cs.Src == "symlink" || cs.Src == "symlink-chain") &&
+		(cs.Fault == nil || cs.Fault.RenameErr == "")
+}
+
+// judged like every other call since glb fix "MoveFile refuses to move a symbolic link onto its own target"
+var judgeMoveOntoTarget = true
+
 func applicable(cs Case) bool {
 	same := cs.SrcFS == cs.DstFS
 	if cs.Rel != "" {
@@ -169,6 +187,17 @@ func applicable(cs Case) bool {
 	}
 	if cs.Conc > 0 {
 		return cs.Src == "present" && (cs.Dst == "missing" || cs.Dst == "longer") && cs.Fault == nil && cs.Spell == "" && cs.Rel == ""
+	}
+	if isRealAlias(cs.Dst) {
+		// source-side aliasing: the source PATH is another name of the file, the destination is
+		// the file itself (or a further name of it)
+		switch cs.Src {
+		case "symlink", "symlink-chain":
+			return true
+		case "dot", "hardlink":
+			return same
+		}
+		return false
 	}
 	switch cs.Dst {
 	case "alias-same", "alias-dot", "alias-dotdot", "alias-hardlink", "alias-relsymlink", "alias-hardlink-chain":
@@ -517,14 +546,33 @@ func (e *env) build(cs Case) (*layout, error) {
 		}
 	}
 	real := l.src
+	// with a destination that names the real file and two file systems, the real file lives on
+	// the destination's file system and the source path is a symlink across
+	realDir := sdir
+	if isRealAlias(cs.Dst) && cs.SrcFS != cs.DstFS {
+		realDir = ddir
+	}
 	switch cs.Src {
 	case "present":
 		must(os.WriteFile(l.src, data, 0o644))
 	case "missing":
 	case "symlink":
-		real = filepath.Join(sdir, "real.bin")
+		real = filepath.Join(realDir, "real.bin")
 		must(os.WriteFile(real, data, 0o644))
 		must(os.Symlink(real, l.src))
+	case "symlink-chain": // srcPath -> l1 -> real file
+		real = filepath.Join(realDir, "real.bin")
+		must(os.WriteFile(real, data, 0o644))
+		must(os.Symlink(real, filepath.Join(sdir, "l1")))
+		must(os.Symlink(filepath.Join(sdir, "l1"), l.src)) // absolute: a moved relative link would dangle by itself
+	case "dot": // srcPath is a ./-spelling of the real file
+		real = filepath.Join(sdir, "real.bin")
+		must(os.WriteFile(real, data, 0o644))
+		l.src = sdir + "/./real.bin"
+	case "hardlink": // srcPath is a hard link of the real file
+		real = filepath.Join(sdir, "real.bin")
+		must(os.WriteFile(real, data, 0o644))
+		must(os.Link(real, l.src))
 	case "sparse":
 		must(writeSparse(l.src, cs.Seed, cs.Size))
 	case "hardlinked": // the source has a second name
@@ -541,7 +589,6 @@ func (e *env) build(cs Case) (*layout, error) {
 	default:
 		return l, fmt.Errorf("unknown source kind %q", cs.Src)
 	}
-	_ = real
 	l.dst = filepath.Join(ddir, dstName)
 	other := func(n int) []byte { return content(cs.Seed^0x5eed5eed, n) }
 	switch cs.Dst {
@@ -616,6 +663,12 @@ func (e *env) build(cs Case) (*layout, error) {
 		}
 		must(os.Symlink(l.src, filepath.Join(od, "hop")))
 		must(os.Symlink(filepath.Join(od, "hop"), l.dst))
+	case "alias-real": // the file the source path is another name of
+		l.dst = real
+	case "alias-real-symlink":
+		must(os.Symlink(real, l.dst))
+	case "alias-real-hardlink":
+		must(os.Link(real, l.dst))
 	case "alias-same":
 		l.dst = l.src
 	case "alias-dot":
@@ -737,6 +790,7 @@ type outcome struct {
 	renameHits int
 	harness    string // the check (not glb) failed on this case
 	skipped    string
+	outside    string // a refuting observation outside the stated quantifier (reported, not judged)
 	// concurrent cases
 	concCalls, concMax, concOverlap int64
 }
@@ -803,7 +857,12 @@ func runCase(cs Case, e *env, oc *outcome) (key, expected, observed string) {
 			}
 		}
 	}
-	return judge(cs, res, srcPre, dstPre, srcPost, dstPost, oc)
+	key, expected, observed = judge(cs, res, srcPre, dstPre, srcPost, dstPost, oc)
+	if key != "" && moveOntoOwnTarget(cs) && !judgeMoveOntoTarget {
+		oc.outside = key + ": " + observed
+		return "", "", ""
+	}
+	return key, expected, observed
 }
 
 // judge applies the oracle to one call: snapshots before, result, snapshots after.
@@ -867,7 +926,7 @@ type mon struct{}
 func (mon) Name() string { return "filecopy" }
 
 func (mon) Level(prop string) (string, string) {
-	return "fault_enumeration", "BOTH TIERS: complete product of operation {CopyFile, MoveFile} × source size × source {present, missing, symlink to file} × destination {missing, shorter, longer, directory, parent missing, parent is a file, symlink to another file, dangling symlink, and the source itself as same path / ./ / dir/../ / symlink / relative symlink / hard link / symlink chain / through a directory symlink} × placement {root FS, tmpfs, across both (real EXDEV)}; a name-related family (source named destination+suffix or dot+destination+suffix and the reverse, in one directory, 14 temp/backup suffixes; also with MoveFile forced into its fallback); an enumerated list of failing steps inside the call (RLIMIT_FSIZE in a probe process; strace tampering: rename→EXDEV or another errno, copy_file_range/read/write/openat/fstat/unlinkat errors at the k-th call, k∈{1,2}). " +
+	return "fault_enumeration", "BOTH TIERS: complete product of operation {CopyFile, MoveFile} × source size × source {present, missing, symlink to file} × destination {missing, shorter, longer, directory, parent missing, parent is a file, symlink to another file, dangling symlink, and the source itself as same path / ./ / dir/../ / symlink / relative symlink / hard link / symlink chain / through a directory symlink} × placement {root FS, tmpfs, across both (real EXDEV)}; a name-related family (source named destination+suffix or dot+destination+suffix and the reverse, in one directory, 14 temp/backup suffixes; also with MoveFile forced into its fallback); source-side aliasing (source path = symlink / symlink chain / ./-spelling / hard link of the file, destination = that file, another symlink to it, a hard link of it; both operations, one and – for the symlink kinds – two file systems, also with MoveFile forced into its fallback); sizes above plausible internal limits (2 MiB+1, 4 MiB+3, 8 MiB+1, plain and sparse, missing/existing destination, both operations, real and forced EXDEV); an enumerated list of failing steps inside the call (RLIMIT_FSIZE in a probe process; strace tampering: rename→EXDEV or another errno, copy_file_range/read/write/openat/fstat/unlinkat errors at the k-th call, k∈{1,2}). " +
 		"THOROUGH ADDS (deep.go): every size 0..64, ±1 around 4 KiB / 32 KiB / 64 KiB / 1 MiB, 2–32 MiB and sparse sources; sources that are hard-linked or a symlink onto the other file system; destinations of equal length, same content, read-only, non-empty directory, symlink to a directory, symlink loop, symlink chain to another file, symlink to a (missing) file on the other file system, symlink→hard link and symlink→other-FS symlink→source aliases – each for both operations and all four placements; awkward names (spaces, unicode, newline, 250 bytes, leading dashes, shell metacharacters) and path spellings (trailing slash, dir/../dir, //, /./ on either side); a fault sweep that first lists the syscalls of a call on the two paths (strace -P) and then fails EVERY occurrence of each (openat, fstat, newfstatat, copy_file_range, read, write, rename*, unlinkat, …) with each of ENOSPC/EIO/EINTR/EDQUOT (the random shards add EACCES/EMFILE/ENOMEM/EROFS/EBUSY), for copy_file_range and for the read/write fallback; RLIMIT_FSIZE at byte 0, 1, size/3, page and buffer boundaries, size-1, size, size+1 (with copy_file_range disabled this yields genuine short write(2) counts); MoveFile forced into its fallback over every source and destination state; 2/8/32 concurrent calls on distinct files in shared directories; seeded random combinations of all dimensions including faults. " +
 		"Never handed to the code under test: device nodes, FIFOs or any path outside the monitor's own temp dirs. Judged by SHA-256+length snapshots before/after; distinct_nontrivial = distinct (op, size, source, destination, placement, name relation/style/spelling, fault, concurrency) tuples with a source present that were really executed"
 }
@@ -886,7 +945,7 @@ func (mon) Assumptions(string) []string {
 }
 
 type shardArgs struct {
-	Kind  string `json:"kind"` // "plain" | "names" | "rlimit" | "exdev" | "inner"; thorough only: "deep" | "big" | "spell" | "rlimit-deep" | "exdev-deep" | "sweep" | "conc" | "rand"
+	Kind  string `json:"kind"` // "plain" | "names" | "srcalias" | "srcalias-exdev" | "large" | "large-exdev" | "rlimit" | "exdev" | "inner"; thorough only: "deep" | "big" | "spell" | "rlimit-deep" | "exdev-deep" | "sweep" | "conc" | "rand"
 	Count int    `json:"count,omitempty"`
 	SrcFS string `json:"src_fs,omitempty"`
 	DstFS string `json:"dst_fs,omitempty"`
@@ -911,6 +970,15 @@ func (mon) Plan(prop, tier string, seed int64) []drv.Shard {
 			add(fmt.Sprintf("names-%s-%s-%s", op, pl[0], pl[1]), shardArgs{Kind: "names", SrcFS: pl[0], DstFS: pl[1], Op: op}, 300)
 		}
 	}
+	// source-side aliasing and sizes above every plausible internal buffer / limit (both tiers)
+	for _, pl := range [][2]string{{"root", "root"}, {"shm", "shm"}, {"root", "shm"}, {"shm", "root"}} {
+		add(fmt.Sprintf("srcalias-%s-%s", pl[0], pl[1]), shardArgs{Kind: "srcalias", SrcFS: pl[0], DstFS: pl[1]}, 300)
+	}
+	add("srcalias-exdev", shardArgs{Kind: "srcalias-exdev"}, 300)
+	for _, pl := range [][2]string{{"root", "root"}, {"root", "shm"}, {"shm", "root"}} {
+		add(fmt.Sprintf("large-%s-%s", pl[0], pl[1]), shardArgs{Kind: "large", SrcFS: pl[0], DstFS: pl[1]}, 300)
+	}
+	add("large-exdev", shardArgs{Kind: "large-exdev"}, 300)
 	add("rlimit", shardArgs{Kind: "rlimit"}, 300)
 	exParts, inParts := 4, 10
 	if tier == "thorough" {
@@ -985,6 +1053,61 @@ func nameCases(tier string, a shardArgs) []Case {
 		for _, dst := range []string{"missing", "shorter", "longer"} {
 			for _, rel := range relKinds() {
 				out = append(out, Case{Op: a.Op, Size: size, SrcFS: a.SrcFS, DstFS: a.DstFS, Src: "present", Dst: dst, Rel: rel})
+			}
+		}
+	}
+	return out
+}
+
+// srcAliasCases: the source PATH is a symlink / symlink chain / ./-spelling / hard link of the
+// file and the destination is that file, another symlink to it, or a hard link of it.
+func srcAliasCases(tier string, a shardArgs, forced bool) []Case {
+	var out []Case
+	ops, sizes := []string{"copy", "move"}, sizesOf(tier)
+	if forced { // MoveFile pushed into its copy fallback on one file system
+		ops, sizes, a.SrcFS, a.DstFS = []string{"move"}, []int{0, 1, 4097}, "root", "root"
+	}
+	for _, op := range ops {
+		for _, size := range sizes {
+			for _, src := range srcAliasKinds {
+				for _, dst := range realAliasKinds {
+					cs := Case{Op: op, Size: size, SrcFS: a.SrcFS, DstFS: a.DstFS, Src: src, Dst: dst}
+					if forced {
+						cs.Fault = &Fault{RenameErr: "EXDEV"}
+					}
+					if applicable(cs) {
+						out = append(out, cs)
+					}
+				}
+			}
+		}
+	}
+	return out
+}
+
+// sizes above every plausible internal buffer or limit of an implementation
+var sizesLarge = []int{2<<20 + 1, 4<<20 + 3, 8<<20 + 1}
+
+func largeCases(a shardArgs, forced bool) []Case {
+	var out []Case
+	ops := []string{"copy", "move"}
+	if forced {
+		ops, a.SrcFS, a.DstFS = []string{"move"}, "root", "root"
+	}
+	for _, size := range sizesLarge {
+		srcs := []string{"present"}
+		if size > 8<<20 && !forced {
+			srcs = append(srcs, "sparse")
+		}
+		for _, op := range ops {
+			for _, src := range srcs {
+				for _, dst := range []string{"missing", "longer"} {
+					cs := Case{Op: op, Size: size, SrcFS: a.SrcFS, DstFS: a.DstFS, Src: src, Dst: dst}
+					if forced {
+						cs.Fault = &Fault{RenameErr: "EXDEV"}
+					}
+					out = append(out, cs)
+				}
 			}
 		}
 	}
@@ -1127,6 +1250,14 @@ func casesFor(tier string, a shardArgs) []Case {
 		return plainCases(tier, a)
 	case "names":
 		return nameCases(tier, a)
+	case "srcalias":
+		return srcAliasCases(tier, a, false)
+	case "srcalias-exdev":
+		return srcAliasCases(tier, a, true)
+	case "large":
+		return largeCases(a, false)
+	case "large-exdev":
+		return largeCases(a, true)
 	case "rlimit":
 		return rlimitCases(tier)
 	case "exdev":
@@ -1178,7 +1309,7 @@ func (mn mon) Run(sh drv.Shard, c *drv.Ctx) {
 		cases = casesFor(sh.Tier, a)
 	}
 	switch a.Kind {
-	case "exdev", "inner", "exdev-deep", "sweep":
+	case "exdev", "inner", "exdev-deep", "sweep", "srcalias-exdev", "large-exdev":
 		if ok, why := straceUsable(e.scratch); !ok {
 			c.Note(fmt.Sprintf("shard %s: strace unusable (%s): %d fault rows skipped", sh.Name, why, len(cases)))
 			c.Add("strace_rows_skipped", int64(len(cases)))
@@ -1317,6 +1448,16 @@ func (mon) record(c *drv.Ctx, cs Case, oc *outcome, deep bool) {
 	}
 	if cs.Rel != "" {
 		c.Add("name_related_calls", 1)
+	}
+	if isRealAlias(cs.Dst) {
+		c.Add("source_side_alias_calls", 1)
+	}
+	if oc.outside != "" {
+		c.Add("move_of_symlink_onto_its_own_target_lost_content(outside_quantifier,not_judged)", 1)
+		c.SetAdd("outside_quantifier_observations", clipStr(fmt.Sprintf("MoveFile(%s, %s) size %d: %s", cs.Src, cs.Dst, cs.Size, oc.outside), 400))
+	}
+	if cs.Size > 2<<20 && !deep {
+		c.Add("calls_above_2MiB", 1)
 	}
 	if isAlias(cs.Dst) {
 		if oc.nilRet {
